@@ -42,6 +42,11 @@ X2_LINES = [
 ]
 
 
+# heading-centred universe (rule state across several headings: levels, duplicates, punctuation, spacing, length)
+H4_LINES = ["# a", "## b", "### c", "#### d", "###### f", "# a.", "#  a", " # a", "T\n===", "T\n---", "text", "", "## b ##",
+            "# a heading of some length", "> # q"]
+
+
 def _sha(obj):
     return hashlib.sha256(json.dumps(obj, ensure_ascii=True, sort_keys=True).encode()).hexdigest()[:16]
 
@@ -336,6 +341,172 @@ class U1Universe(Universe):
         return h[0] + "".join(reversed(out)) + h[1]
 
 
+# ---------------------------------------------------------------------------- multi-line inline
+M5_OPEN = {"html": " <b", "htmlI": " <b", "ref": " [b][c", "code": " `s", "title": " [l](/u 'ti"}
+M5_CLOSE = {"html": "e> ", "htmlI": "   e> ", "ref": "d] ", "code": "t` ", "title": "tle') "}
+M5_B = ["none", "html", "htmlI", "ref", "code", "title", "cont"]
+M5_PRE = ["> ", ">", ""]
+
+
+class M5Universe(Universe):
+    """5-line paragraphs in a block quote whose inline elements cross line boundaries (raw HTML, full reference
+    link labels, code spans, link titles; 'cont' = the element stays open over a further line), every line with its
+    own quote prefix ('> ', '>' or none = lazy), last line ending in emphasis; needed reference definitions follow."""
+
+    name = "M5"
+
+    def __init__(self):
+        self.nb = len(M5_B) ** 4
+        self.np = len(M5_PRE) ** 4
+        self.size = self.nb * self.np
+
+    def doc(self, rank):
+        pr, br = rank % self.np, rank // self.np
+        pres = ["> "]
+        for _ in range(4):
+            pres.append(M5_PRE[pr % 3])
+            pr //= 3
+        bs = []
+        for _ in range(4):
+            bs.append(M5_B[br % len(M5_B)])
+            br //= len(M5_B)
+        lines = []
+        open_kind = None
+        label = None
+        labels = []
+        for i in range(5):
+            text = ""
+            if open_kind is not None:
+                if i < 4 and bs[i] == "cont":
+                    text = f"m{i}"
+                    if open_kind == "ref":
+                        label.append(f"m{i}")
+                    lines.append(pres[i] + text)
+                    continue
+                text += M5_CLOSE[open_kind]
+                if open_kind == "ref":
+                    label.append("d")
+                    labels.append(" ".join(label))
+                open_kind = None
+            text += f"w{i}"
+            if i < 4:
+                nb = bs[i] if bs[i] != "cont" else "none"
+                # a 'cont' directly after nothing open behaves like 'none'; look ahead: cont applies to the NEXT boundary
+                if nb != "none":
+                    text += M5_OPEN[nb]
+                    open_kind = nb
+                    if nb == "ref":
+                        label = ["c"]
+            else:
+                text += " *g*"
+            lines.append(pres[i] + text)
+        out = "\n".join(lines) + "\n"
+        for lb in dict.fromkeys(labels):
+            out += f"\n[{lb}]: /u\n"
+        return out
+
+
+# ---------------------------------------------------------------------------- specification limits
+def _limit_docs():
+    d = []
+    for n in (1, 2, 3, 31, 32, 33):
+        for tail in ("a", "1", "+", ".", "-"):
+            sch = ("a" * (n - 1) + tail) if n > 1 else "a"
+            d.append(f"<{sch}:x>")
+            d.append(f"see <{sch}:x y> and <{sch}:/p?q=1>")
+    for n in (1, 62, 63, 64):
+        d.append("<a@" + "b" * n + ".c>")
+        d.append("<" + "a" * n + "@b.c>")
+    for n in range(1, 9):
+        d.append("#" * n + " h")
+        d.append("#" * n + "h")
+        d.append("# h " + "#" * n)
+        d.append("# h #" + "#" * n + " x")
+    for n in (1, 8, 9, 10, 11):
+        for mk in (".", ")"):
+            d.append("1" * n + mk + " a")
+            d.append("0" * n + mk + " a")
+            d.append("p\n" + "1" * n + mk + " a")
+    for ind in range(0, 6):
+        for opener in ("```", "~~~", "# h", "---", "- a", "1. a", "> q", "<div>", "[l]: /u", "===", "    c", "***"):
+            d.append(" " * ind + opener)
+            d.append("p\n" + " " * ind + opener)
+            d.append("- a\n" + " " * ind + opener)
+    for n in (2, 3, 4, 5):
+        for ch in "`~":
+            d.append(ch * n + "\nc\n" + ch * n)
+            d.append(ch * 4 + "\nc\n" + ch * n)
+            d.append(ch * n + " i" + ch + "\nc")
+            d.append(ch * n + "py\n" + ch * (n + 1) + " x\n" + ch * n)
+    for ch in "-_*":
+        for n in (2, 3, 4):
+            d.append(ch * n)
+            d.append((ch + " ") * n)
+            d.append((ch + "\t") * n)
+            d.append(ch * n + " a")
+    for n in range(1, 10):
+        d.append("&#" + "1" * n + ";")
+        d.append("&#x" + "a" * n + ";")
+    for e in ("&amp;", "&AMP;", "&amp", "&nosuch;", "&#0;", "&#x0;", "&#1114112;", "&#xD800;", "&copy;", "&ThickSpace;", "&ngE;"):
+        d.append(e)
+        d.append("[a](/u" + e + ' "' + e + '")')
+    for a in range(1, 4):
+        for b in range(1, 4):
+            d.append("`" * a + "c" + "`" * b)
+            d.append("`" * a + " c " + "`" * b + " `x`")
+    for a in range(1, 5):
+        for b in range(1, 5):
+            d.append("*" * a + "e" + "*" * b)
+            d.append("_" * a + "e" + "_" * b)
+            d.append("*" * a + "_e" + "*" * b + "_")
+    for n in (1, 2, 3):
+        d.append("[a](" + "(" * n + "x" + ")" * n + ")")
+        d.append("[a](" + "(" * n + "x" + ")" * (n - 1) + ")")
+        d.append("[a](<" + "(" * n + "x>)")
+    for t in ('"t"', "'t'", "(t)", '"t', "'t\"", "(t(u))", '"a\\"b"'):
+        d.append("[a](/u " + t + ")")
+        d.append("[l]: /u " + t)
+        d.append("[l]: /u\n  " + t + "\n\n[l]")
+    for n in (998, 999, 1000):
+        d.append("[" + "a" * n + "]: /u\n\n[" + "a" * n + "]")
+    for t in ("<a>", "<a/>", "<a b>", "<a b=c>", "<a b='c'>", '<a b="c">', "<a b=>", "<a b='>", "<a\nb>", "</a>", "</a b>", "<1a>", "<a.b>", "<a:b>", "<?p?>", "<!D x>", "<![CDATA[x]]>", "<!--c-->"):
+        d.append("x " + t + " y")
+        d.append(t)
+    for c in range(0, 9):
+        d.append(" " * c + "\ta")
+        d.append("-" + " " * c + "\ta")
+        d.append(">" + " " * c + "\ta")
+    return d
+
+
+_LIMITS = None
+L1_HOSTS = [("", ""), ("> ", "> "), ("- ", "  "), ("1. ", "   ")]
+
+
+class L1Universe(Universe):
+    """Boundary values of the numeric / lexical limits the specification states (scheme length 2-32, 1-6 #, 9-digit
+    list numbers, 0-3 vs 4 spaces of indentation, fence lengths, entity digit counts, delimiter run lengths, nested
+    parentheses, 999-character labels, tab stops), each at top level and inside a quote / bullet / ordered item."""
+
+    name = "L1"
+
+    def __init__(self):
+        global _LIMITS
+        if _LIMITS is None:
+            _LIMITS = list(dict.fromkeys(x.replace("\\n", "\n").replace("\\t", "\t") for x in _limit_docs()))
+        self.docs = _LIMITS
+        self.size = len(self.docs) * len(L1_HOSTS) * 2
+
+    def doc(self, rank):
+        nl = rank % 2
+        rank //= 2
+        first, cont = L1_HOSTS[rank % len(L1_HOSTS)]
+        body = self.docs[rank // len(L1_HOSTS)]
+        lines = body.split("\n")
+        out = "\n".join(((first if i == 0 else cont) + l) if l else (first if i == 0 else cont).rstrip(" ") for i, l in enumerate(lines))
+        return out + ("\n" if nl == 0 else "")
+
+
 _pairs = [a + b for a in "quo" for b in "quo"]
 _triples = [a + b + c for a in "quo" for b in "quo" for c in "quo"]
 
@@ -355,6 +526,9 @@ def _build():
         "S3": lambda: StructuredUniverse("S3", _triples, False),
         "U1": U1Universe,
         "X2": lambda: LinesUniverse("X2", [""], X2_LINES, 3, newline_variants=False),
+        "H4": lambda: LinesUniverse("H4", [""], H4_LINES, 4, newline_variants=False, min_lines=2),
+        "M5": M5Universe,
+        "L1": L1Universe,
     }
 
 
@@ -364,7 +538,7 @@ def get(name):
     return _REGISTRY[name]
 
 
-ALL = ["B2", "B3", "B4", "I4", "I6", "N1", "W1", "S2", "S3", "U1", "X2"]
+ALL = ["B2", "B3", "B4", "I4", "I6", "N1", "W1", "S2", "S3", "U1", "X2", "H4", "M5", "L1"]
 
 if __name__ == "__main__":
     tot = 0
